@@ -36,7 +36,7 @@ def cases(draw, strategy=None):
       recv.append(['wait', draw(st.sampled_from([0.05, 0.5, 1, 2]))])
     else:
       counter[0] += 1
-      recv.append(['store', draw(st.sampled_from(METRICS)), draw(st.integers(1, 3)), counter[0]])
+      recv.append(['store', draw(st.sampled_from(METRICS)), draw(st.sampled_from([1, 2, 3, 1.25, 1.75, 2.5, 1000000.125, 1000000.875])), counter[0]])
   nfaults = draw(st.sampled_from([0, 1, 1, 2, 3]))
   faults = {}
   for _ in range(nfaults):
